@@ -448,3 +448,43 @@ def replay(modname, path):
         return 1
     print("replay: the recorded signature does not occur on the current tree")
     return 0
+
+
+def forked(fn, *args):
+    """Run fn(*args) in a forked child and return its (JSON-able) result: command-level entry points leave module state behind
+    (gen writes into globals(), exmod caches in a default argument); that cross-talk is C10's subject, not the other checks'."""
+    r, w = os.pipe()
+    pid = os.fork()
+    if pid == 0:
+        code = 0
+        try:
+            os.close(r)
+            try:
+                res = dict(ok=True, value=fn(*args))
+            except BaseException as e:  # noqa
+                res = dict(ok=False, exc=type(e).__name__, msg=str(e)[:500], tb=traceback.format_exc()[-1500:])
+            data = json.dumps(res, default=repr).encode()
+            view = memoryview(data)
+            while view:
+                n = os.write(w, view[: 1 << 16])
+                view = view[n:]
+        except BaseException:  # noqa
+            code = 3
+        finally:
+            os._exit(code)
+    os.close(w)
+    chunks = []
+    while True:
+        b = os.read(r, 1 << 16)
+        if not b:
+            break
+        chunks.append(b)
+    os.close(r)
+    os.waitpid(pid, 0)
+    try:
+        res = json.loads(b"".join(chunks).decode())
+    except Exception:
+        raise RuntimeError("forked child died without a result")
+    if not res["ok"]:
+        raise RuntimeError("forked child raised %s: %s\n%s" % (res["exc"], res["msg"], res.get("tb", "")))
+    return res["value"]
